@@ -23,6 +23,7 @@ var gen2Conds = []string{
 	`F.S == "a"`,
 	`F.M["a"] == 0`,
 	"F.P.V < 2",
+	"F.K + 1 < 3 && F.SelArr[F.K + 1] < 60",
 }
 
 // %s = own name, %o = other rule's name
@@ -39,6 +40,7 @@ var gen2Acts = [][]string{
 	{"F.Bump()", `Forget("F.I")`, `Forget("F.Bump()")`},
 	{"F.I = F.Add(F.I, 1)"},
 	{"F.I2 = F.I2 + 1", "F.I = F.I2"},
+	{"F.I2 = F.I2 + F.SelArr[F.K + 1]", "F.K = F.K + 1"},
 }
 
 func gen2World(v int64) func() *ref.World {
@@ -51,6 +53,7 @@ func gen2World(v int64) func() *ref.World {
 			f.S = "a"
 		}
 		f.Arr = []int64{v}
+		f.SelArr = []int64{v + 1, v + 3, 50, 51, 52, 53, 54, 55, 56}
 		f.M = map[string]int64{"a": v}
 		f.P = &facts.Sub{V: v}
 		w.Objs["F"] = f
@@ -70,15 +73,21 @@ func gen2Rule(name, other string, ci, ai int) *grl.Rule {
 
 // general2 emits all 2-rule sets over the (condition x action-list) alphabet.
 func general2(tier string, maxCycle uint64, emit func(Case)) {
-	nc, na := 6, 6
+	conds, acts := []int{0, 1, 2, 3, 4, 5, 12}, []int{0, 1, 2, 3, 4, 5, 12}
 	if tier == "thorough" {
-		nc, na = len(gen2Conds), len(gen2Acts)
+		conds, acts = nil, nil
+		for i := range gen2Conds {
+			conds = append(conds, i)
+		}
+		for i := range gen2Acts {
+			acts = append(acts, i)
+		}
 	}
 	worlds := []func() *ref.World{gen2World(0), gen2World(1)}
-	for c1 := 0; c1 < nc; c1++ {
-		for a1 := 0; a1 < na; a1++ {
-			for c2 := 0; c2 < nc; c2++ {
-				for a2 := 0; a2 < na; a2++ {
+	for _, c1 := range conds {
+		for _, a1 := range acts {
+			for _, c2 := range conds {
+				for _, a2 := range acts {
 					for _, s2 := range []int64{0, 1} {
 						r1 := gen2Rule("ra", "rb", c1, a1)
 						r2 := gen2Rule("rb", "ra", c2, a2)
